@@ -146,6 +146,10 @@ Variants == Pick({0, 1}, 0..3, 0..13)
 At(sq, i) == sq[(i % Len(sq)) + 1]
 LineAt(v) == At(LineSeq(nblocks + 1), 2 * v + 3 * nblocks)
 
+(* whitespace at the end of a structural line (underline, rule, fence): nothing, two spaces, or a tab - never significant *)
+Trail(v) == IF Level = 2 THEN At(<<"", "", "  ", "", "{TAB}", "">>, v \div 3) ELSE ""
+
+
 ---------------------------------------------------------------------------
 (* containers *)
 (* a line is assembled from the inside out: a quote frame typed "bare" writes its marker without the optional space when
@@ -315,10 +319,16 @@ TypeSetext ==
     \E sep \in Seps, v \in Variants :
        LET lv == 1 + (v % 2)
            ul == At(Pick(<<3>>, <<3>>, <<1, 2, 3>>), v)
-           l1 == LineAt(v) IN
-       /\ Leaf("setext", "setext", sep, Node("SetextHeading", Parent, 0, lv, <<[atoms |-> l1, hard |-> FALSE]>>, ""),
-               <<LineSrc(l1), SubSeq(IF lv = 1 THEN "===" ELSE "---", 1, ul)>>, Depth)
+           l1 == LineAt(v)
+           twoLines == Level = 2 /\ v % 5 = 2                       \* the heading text may span lines
+           l2 == <<W(WordAt(nblocks + 5)), W("more")>>
+           uind == IF Level = 2 THEN At(<<0, 0, 1, 3>>, v \div 2) ELSE 0     \* the underline may be indented up to three spaces
+           tx == IF twoLines THEN <<[atoms |-> l1, hard |-> FALSE], [atoms |-> l2, hard |-> FALSE]>> ELSE <<[atoms |-> l1, hard |-> FALSE]>>
+           under == Spaces(uind) \o SubSeq(IF lv = 1 THEN "===" ELSE "---", 1, ul) \o Trail(v) IN
+       /\ Leaf("setext", "setext", sep, Node("SetextHeading", Parent, 0, lv, tx, ""),
+               IF twoLines THEN <<LineSrc(l1), LineSrc(l2), under>> ELSE <<LineSrc(l1), under>>, Depth)
        /\ tags' = tags \cup (IF InQuote THEN {"setext-in-quote"} ELSE {}) \cup LazyTag(sep) \cup NcSep(sep) \cup TitleLike(sep, l1)
+                       \cup NcIf(uind > 0 \/ Trail(v) # "")
 
 (* a thematic break; "---" cannot follow paragraph text directly (it would be a setext underline), and on the first
    line of a bullet item the characters of the marker would merge with it *)
@@ -329,8 +339,8 @@ TypeHr ==
            ch == SubSeq(h, 1, 1) IN
        /\ IndOk(ind)
        /\ ~(InItemFirstLine /\ Top.marker = ch)
-       /\ Leaf(IF ch = "-" THEN "hr" ELSE "hrstar", "hr", sep, Node("ThematicBreak", Parent, 0, 0, NoText, ""), <<Spaces(ind) \o h>>, Depth)
-       /\ tags' = tags \cup NcSep(sep) \cup NcIf(ind > 0)
+       /\ Leaf(IF ch = "-" THEN "hr" ELSE "hrstar", "hr", sep, Node("ThematicBreak", Parent, 0, 0, NoText, ""), <<Spaces(ind) \o h \o Trail(v)>>, Depth)
+       /\ tags' = tags \cup NcSep(sep) \cup NcIf(ind > 0 \/ Trail(v) # "")
 
 Bodies == Pick(<< <<"a", "", "  b">> >>, << << >>, <<"a", "", "  b">> >>,
                << << >>, <<"code">>, <<"a", "", "  b">>, <<"# not a heading", "> nor a quote">>, <<"- x", "***">> >>)
@@ -344,11 +354,12 @@ TypeFence ==
            body == At(Bodies, v + nblocks)
            closeExtra == IF Level = 2 /\ v % 5 = 4 THEN 1 ELSE 0
            fence == SubSeq(IF ch = "`" THEN "``````" ELSE "~~~~~~", 1, n)
-           lines == <<Spaces(ind) \o fence \o info>> \o [i \in DOMAIN body |-> IF body[i] = "" THEN "" ELSE Spaces(ind) \o body[i]]
-                    \o <<Spaces(ind) \o fence \o SubSeq(fence, 1, closeExtra)>> IN
+           infosp == IF Level = 2 /\ info # "" /\ v % 4 = 1 THEN " " ELSE ""       \* the info string may be separated from the fence
+           lines == <<Spaces(ind) \o fence \o infosp \o info \o Trail(v + 1)>> \o [i \in DOMAIN body |-> IF body[i] = "" THEN "" ELSE Spaces(ind) \o body[i]]
+                    \o <<Spaces(ind) \o fence \o SubSeq(fence, 1, closeExtra) \o Trail(v)>> IN
        /\ IndOk(ind)
        /\ Leaf("fence", "fence", sep, Node("CodeFence", Parent, 0, 0, NoText, [info |-> info, body |-> body]), lines, Depth)
-       /\ tags' = tags \cup NcSep(sep) \cup NcIf(closeExtra = 1 \/ (InQuote /\ \E i \in DOMAIN body : body[i] = ""))
+       /\ tags' = tags \cup NcSep(sep) \cup NcIf(closeExtra = 1 \/ (InQuote /\ \E i \in DOMAIN body : body[i] = "") \/ Trail(v) # "" \/ Trail(v + 1) # "" \/ infosp # "")
 
 (* indented code: never directly after paragraph text, not after another indented code block or a list (it would
    merge), not as the first block of a list item (the indentation would be marker padding) *)
